@@ -36,7 +36,7 @@ RULE = (
     "passing the scheduler in the thorough tier; non-trivial = by the reference >=2 source subscriptions are opened (a hand-over from one "
     "source to the next takes place); distinct = (operator form, parameters, timelines)"
 )
-BUDGET = {"quick": 180.0, "thorough": 2400.0}
+BUDGET = {"quick": 300.0, "thorough": 2400.0}
 
 
 # ------------------------------------------------------------------ timelines
